@@ -536,7 +536,7 @@ def snap_overlay():
 
 # ---------------------------------------------------------------- (de)serialisation for replays
 def set_to_json(cs, runs):
-    return {"name": cs.name, "regime": cs.regime, "files": cs.files, "assign": cs.assign, "lossy": getattr(cs, "lossy", None),
+    return {"name": cs.name, "regime": cs.regime, "files": cs.files, "assign": cs.assign, "lossy": getattr(cs, "lossy", None), "dgap": getattr(cs, "dgap", None),
             "convs": [c.to_json() for c in cs.convs],
             "packets": [{k: (v.hex() if isinstance(v, bytes) else v) for k, v in p.items()} for p in cs.packets],
             "runs": [[l, se, [[f, fl] for f, fl in st]] for l, se, st in runs]}
@@ -547,6 +547,8 @@ def set_from_json(o):
     cs.regime, cs.files, cs.assign = o.get("regime", ""), o["files"], o["assign"]
     if o.get("lossy") is not None:
         cs.lossy = o["lossy"]
+    if o.get("dgap") is not None:
+        cs.dgap = o["dgap"]
     byid = {}
     for c in o["convs"]:
         cv = Conv(c["cid"], c["proto"], tuple(c["client"]), tuple(c["server"]), [(d, bytes.fromhex(b)) for d, b in c["msgs"]], c["close"], c["closer"])
@@ -567,6 +569,8 @@ def restrict(cs, cids):
     out.regime, out.files = cs.regime, cs.files
     if hasattr(cs, "lossy"):
         out.lossy = cs.lossy
+    if hasattr(cs, "dgap"):
+        out.dgap = cs.dgap
     keep = set(cids)
     out.convs = [c for c in cs.convs if c.cid in keep]
     out.packets = [p for p in cs.packets if p["cid"] in keep]
@@ -582,6 +586,8 @@ def nonempty_runs(cs, runs):
     cs2.regime, cs2.convs, cs2.packets = cs.regime, cs.convs, cs.packets
     if hasattr(cs, "lossy"):
         cs2.lossy = cs.lossy
+    if hasattr(cs, "dgap"):
+        cs2.dgap = cs.dgap
     cs2.files = [cs.files[f] for f in used]
     cs2.assign = [remap[f] for f in cs.assign]
     runs2 = []
